@@ -19,23 +19,43 @@ pub struct Scn {
     pub links: Vec<(String, Vec<(String, u8)>, Vec<(String, u8)>)>, // name, materials(path,digest id), products
 }
 
+/// Digest ids are opaque to the model (two recordings are equal iff their ids are equal); here an id
+/// selects a whole digest map so that unequal ids share, partly share or do not share algorithms:
+///   0 = no digest at all, 1..=3 = sha256 only, value 0xa0 + id (the ids of the first generators),
+///   4v+0 = sha256 only (value v), 4v+1 = sha512 only (v), 4v+2 = both (v, v), 4v+3 = both (v, v+1)   for v >= 1
 pub fn digest(id: u8) -> TargetDescription {
     let mut m = HashMap::new();
     match id {
         0 => {}
-        1..=9 => {
-            m.insert(HashAlgorithm::Sha256, HashValue::new(vec![id; 32]));
-        }
-        10..=19 => {
-            m.insert(HashAlgorithm::Sha512, HashValue::new(vec![id; 64]));
+        1..=3 => {
+            m.insert(HashAlgorithm::Sha256, HashValue::new(vec![0xa0 + id; 32]));
         }
         _ => {
-            m.insert(HashAlgorithm::Sha256, HashValue::new(vec![id; 32]));
-            m.insert(HashAlgorithm::Sha512, HashValue::new(vec![id; 64]));
+            let v = id / 4;
+            match id % 4 {
+                0 => {
+                    m.insert(HashAlgorithm::Sha256, HashValue::new(vec![v; 32]));
+                }
+                1 => {
+                    m.insert(HashAlgorithm::Sha512, HashValue::new(vec![v; 64]));
+                }
+                2 => {
+                    m.insert(HashAlgorithm::Sha256, HashValue::new(vec![v; 32]));
+                    m.insert(HashAlgorithm::Sha512, HashValue::new(vec![v; 64]));
+                }
+                _ => {
+                    m.insert(HashAlgorithm::Sha256, HashValue::new(vec![v; 32]));
+                    m.insert(HashAlgorithm::Sha512, HashValue::new(vec![v + 1; 64]));
+                }
+            }
         }
     }
     m
 }
+
+/// ids whose digest maps overlap in every way: same value under one / the other / both algorithms,
+/// one algorithm agreeing and the other not, nothing recorded
+const DIGEST_POOL: &[u8] = &[1, 1, 1, 2, 2, 4, 5, 6, 7, 8, 10, 0];
 
 pub fn rule_tok(r: &ArtifactRule) -> String {
     let o = |x: &Option<String>| x.as_ref().map(|s| hexs(s)).unwrap_or_else(|| "~".into());
@@ -163,11 +183,11 @@ fn gen_arts(r: &mut Rng, normalized: bool) -> Vec<(String, u8)> {
     let uni = if r.chance(2, 3) { UNIVERSE } else { UNIVERSE2 };
     for p in uni {
         if r.chance(1, 2) {
-            v.push((p.to_string(), 1 + r.below(2) as u8));
+            v.push((p.to_string(), *r.pick(DIGEST_POOL)));
         }
     }
     if r.chance(1, 6) {
-        v.push((r.pick(&["subfoo", "dstfoo", "sub.foo", "sub", "dst", "su/foo", "subb/foo"]).to_string(), 1 + r.below(2) as u8));
+        v.push((r.pick(&["subfoo", "dstfoo", "sub.foo", "sub", "dst", "su/foo", "subb/foo"]).to_string(), *r.pick(DIGEST_POOL)));
     }
     if !normalized && r.chance(1, 2) {
         let odd = ["./foo", "sub//foo", "a/../foo", "/abs/foo", "sub/", ".", "", "..", "foo/.", "\u{e9}/x"];
@@ -278,14 +298,16 @@ pub fn run(cfg: &Cfg) {
                 let pick = |mask: usize, dig: u8| -> Vec<(String, u8)> {
                     uni.iter().enumerate().filter(|(i, _)| mask >> i & 1 == 1).map(|(_, p)| (p.to_string(), dig)).collect()
                 };
-                for (other_m, other_p) in [(pick(15, 1), pick(15, 1)), (pick(5, 2), pick(10, 1))] {
+                // the other link: same digests; different digests; the same sha256 value inside a different
+                // digest map (sha256+sha512 / sha512 only), so that "equal" means equal maps
+                for (other_m, other_p) in [(pick(15, 1), pick(15, 1)), (pick(5, 2), pick(10, 1)), (pick(15, 6), pick(15, 5))] {
                     for in_products in [false, true] {
                         let rl = vec![rule.clone(), ArtifactRule::Disallow(vp("*"))];
                         let s = Scn {
                             item: "it".into(),
                             mats: if in_products { vec![] } else { rl.clone() },
                             prods: if in_products { rl } else { vec![] },
-                            links: vec![("it".into(), pick(mask_m, 1), pick(mask_p, 1)), ("other".into(), other_m.clone(), other_p.clone())],
+                            links: vec![("it".into(), pick(mask_m, if other_m.first().map(|x| x.1) == Some(6) { 4 } else { 1 }), pick(mask_p, if other_m.first().map(|x| x.1) == Some(6) { if mask_m % 2 == 0 { 6 } else { 4 } } else { 1 })), ("other".into(), other_m.clone(), other_p.clone())],
                         };
                         case(&mut sink, &mut model, &s, "scope");
                         scope += 1;
